@@ -101,6 +101,8 @@ def recursion_budget(rep, prog):
 
 def run(ctx):
     rep = Report('C10')
+    import gen_thrift as _g
+    _g.corpus_generated(rep, 'G10.h')
     prog = mirlib.load_program([ws_facts('ws')])
     cg = mirlib.CallGraph(prog)
     roots = scopes.prost_decoder_roots(prog)
